@@ -422,9 +422,9 @@ pub fn generate(thorough: bool, seed: u64, out: &mut dyn Write) {
     }
     // redundant copies, continued (appended: the random stream of the families above is unchanged):
     // the file header's LOD count (`flc`; the reader loops over the `ModelHeader`'s count).  Unedited
-    // the writer echoes it; `update_headers` bounds its first loop by it: smaller than the real count
-    // or above 3 is the class of the recorded finding `c07.file-lod-count`, in between harmless.
-    // Models with >= 2 meshes / several streams, so that stale mesh offsets show.
+    // the writer echoes it; `update_headers` must not depend on it (fixed defect file-lod-count: it
+    // bounded the first loop by it - a count below the real one left stale mesh offsets, above 3
+    // panicked).  Models with >= 2 meshes / several streams, so that stale mesh offsets show.
     let n = if thorough { 600 } else { 36 };
     for i in 0..n {
         let o = GenOpts { max_meshes: 3, max_vertices: 40, combos: WCOMBOS, v5_only: true, canonical: true };
